@@ -41,6 +41,10 @@ pub struct ShutdownScenario {
     /// what a wait_for_shutdown() future taken beforehand observes
     #[serde(default)]
     pub via_drop: bool,
+    /// when > 0: every handler is released this many ms after shutdown was requested (the generated
+    /// delays of 0-120 ms are ignored) - for handlers that outlive the draining of connections by far
+    #[serde(default)]
+    pub long_hold_ms: u32,
 }
 
 fn conn_state() -> impl Strategy<Value = ConnState> {
@@ -63,7 +67,7 @@ fn shutdown_scenario(max: usize) -> impl Strategy<Value = ShutdownScenario> {
                 }
             }
         }
-        ShutdownScenario { tls, detached, conns, release_after_ms, waiters, server_workers, via_drop }
+        ShutdownScenario { tls, detached, conns, release_after_ms, waiters, server_workers, via_drop, long_hold_ms: 0 }
     })
 }
 
@@ -114,15 +118,16 @@ fn check_shutdown(rt: &tokio::runtime::Runtime, s: &ShutdownScenario, st: &mut S
             let id = i as u64 + 1;
             let l = log.clone();
             let mut close_rx = close_rx.clone();
+            let long_hold: u32 = if s.long_hold_ms > 0 { s.long_hold_ms + 8000 } else { 0 };
             handles.push(tokio::spawn(async move {
                 match cs {
                     ConnState::InFlightStayer { h2, upload, drop_ctx } => {
-                        let c = ClientSpec { kind: if upload { Kind::Upload } else { Kind::Hold }, proto: if h2 { Proto::H2DropConn } else { Proto::H1 }, point: Point::Never, rst: false, drop_ctx, start_delay_ms: 0 };
+                        let c = ClientSpec { kind: if upload { Kind::Upload } else { Kind::Hold }, proto: if h2 { Proto::H2DropConn } else { Proto::H1 }, point: Point::Never, rst: false, drop_ctx, start_delay_ms: 0, hold_ms: long_hold };
                         let r = if h2 { run_h2(addr, l, c, id).await } else { run_h1_with(addr, tls, l, c, id).await };
                         r.map(Outcome::Client).unwrap_or_else(|f| Outcome::Error(f.msg))
                     }
                     ConnState::InFlightLeaver { h2, rst, drop_ctx } => {
-                        let c = ClientSpec { kind: Kind::Hold, proto: if h2 { Proto::H2DropConn } else { Proto::H1 }, point: Point::WhileWaiting, rst, drop_ctx, start_delay_ms: 0 };
+                        let c = ClientSpec { kind: Kind::Hold, proto: if h2 { Proto::H2DropConn } else { Proto::H1 }, point: Point::WhileWaiting, rst, drop_ctx, start_delay_ms: 0, hold_ms: long_hold };
                         let r = if h2 { run_h2(addr, l, c, id).await } else { run_h1_with(addr, tls, l, c, id).await };
                         r.map(Outcome::Client).unwrap_or_else(|f| Outcome::Error(f.msg))
                     }
@@ -228,7 +233,7 @@ fn check_shutdown(rt: &tokio::runtime::Runtime, s: &ShutdownScenario, st: &mut S
             r
         });
         // release handlers at their delays
-        let mut order: Vec<(u64, u64)> = (0..n).map(|i| (s.release_after_ms[i % s.release_after_ms.len()] as u64, i as u64 + 1)).collect();
+        let mut order: Vec<(u64, u64)> = (0..n).map(|i| (if s.long_hold_ms > 0 { s.long_hold_ms as u64 } else { s.release_after_ms[i % s.release_after_ms.len()] as u64 }, i as u64 + 1)).collect();
         order.sort();
         let t0 = std::time::Instant::now();
         for (d, id) in order {
@@ -236,7 +241,7 @@ fn check_shutdown(rt: &tokio::runtime::Runtime, s: &ShutdownScenario, st: &mut S
             tokio::time::sleep(wait).await;
             log.release(id);
         }
-        let close_result = match tokio::time::timeout(Duration::from_secs(30), close_task).await {
+        let close_result = match tokio::time::timeout(Duration::from_secs(30 + (s.long_hold_ms as u64) / 1000), close_task).await {
             Ok(Ok(r)) => r,
             Ok(Err(e)) => fail!("close-panicked", "{}: {}", desc, e),
             Err(_) => fail!("close-hangs", "{}: close() did not return within 30 s :: {:?}", desc, log.snapshot()),
@@ -361,11 +366,35 @@ fn check_shutdown(rt: &tokio::runtime::Runtime, s: &ShutdownScenario, st: &mut S
 }
 
 pub fn run(ctx: &mut Ctx) {
-    ctx.rule = "scenarios = task mode x 1-8 connections in generated states at the moment close() is called (a quarter of the scenarios drop the server instead and observe the end of shutdown through a wait_for_shutdown() future) (handler entered and waiting with the client staying, over HTTP/1.1 or HTTP/2, plain or upload, optionally having dropped its RequestContext; handler entered and client already gone, FIN or RST; a 4 MiB response half read; idle keep-alive; half-sent request that is later finished or abandoned) x 1-3 wait_for_shutdown() futures taken beforehand x handler release delays of 0-120 ms after close() was called x 1-4 server workers. Oracle over the event log: stayers read complete correct responses; Completed(id) of every in-flight handler and every detached handler precedes CloseReturned and the release of every wait_for_shutdown() future; connect() is refused afterwards; close() and all waiters agree. non-trivial = >= 2 in-flight handlers at close, or a detached handler outliving its client; distinct by scenario".into();
+    ctx.rule = "scenarios = task mode x 1-8 connections in generated states at the moment close() is called (a quarter of the scenarios drop the server instead and observe the end of shutdown through a wait_for_shutdown() future) (handler entered and waiting with the client staying, over HTTP/1.1 or HTTP/2, plain or upload, optionally having dropped its RequestContext; handler entered and client already gone, FIN or RST; a 4 MiB response half read; idle keep-alive; half-sent request that is later finished or abandoned) x 1-3 wait_for_shutdown() futures taken beforehand x handler release delays of 0-120 ms after close() was called x 1-4 server workers. Phase long_running_detached_handler: a detached handler whose client has left is released 11.5 s (thorough: up to 33 s) after shutdown was requested. Oracle over the event log: stayers read complete correct responses; Completed(id) of every in-flight handler and every detached handler precedes CloseReturned and the release of every wait_for_shutdown() future; connect() is refused afterwards; close() and all waiters agree. non-trivial = >= 2 in-flight handlers at close, or a detached handler outliving its client; distinct by scenario".into();
     ctx.assume("liveness is only observed within a 30 s bound; a timeout there is reported as a violation of 'close-hangs' only because every handler is released by the harness within 120 ms");
     ctx.max_shrink_iters = 60;
     let rt = tokio::runtime::Builder::new_multi_thread().worker_threads(4).enable_all().build().unwrap();
     let n = ctx.tier.pick(300, 5000);
     ctx.phase("shutdowns", n, shutdown_scenario(8), |s, st| check_shutdown(&rt, s, st));
     ctx.require_frac("shutdowns", "detached_leaver", "scenarios", 0.15);
+    // handlers that keep running long after every connection has drained (a waiting period inside
+    // shutdown, however generous, must not end before they do)
+    let holds: Vec<u32> = if ctx.tier == Tier::Quick { vec![11_500] } else { vec![11_500, 21_000, 33_000] };
+    let cases: Vec<ShutdownScenario> = holds
+        .into_iter()
+        .flat_map(|h| {
+            [false, true].into_iter().map(move |stayer| ShutdownScenario {
+                tls: false,
+                detached: true,
+                conns: if stayer {
+                    vec![ConnState::InFlightLeaver { h2: false, rst: false, drop_ctx: false }, ConnState::InFlightStayer { h2: false, upload: false, drop_ctx: false }]
+                } else {
+                    vec![ConnState::InFlightLeaver { h2: false, rst: false, drop_ctx: false }]
+                },
+                release_after_ms: vec![0],
+                waiters: 1,
+                server_workers: 2,
+                via_drop: false,
+                long_hold_ms: h,
+            })
+        })
+        .collect();
+    let cases: Vec<ShutdownScenario> = if ctx.tier == Tier::Quick { cases.into_iter().take(1).collect() } else { cases };
+    ctx.enumerate("long_running_detached_handler", cases, false, |s, st| check_shutdown(&rt, s, st));
 }
